@@ -156,10 +156,10 @@ class CP1Disk(CP1Object):
         center_norm = np.linalg.norm(center, axis=-1)
 
         res = np.arctan(center_norm + radius) - np.arctan(center_norm - radius)
-        inverted = ~self.center_inside()
-        res[inverted] = np.pi - res[inverted]
 
-        return res
+        # np.where rather than masked assignment: res is a numpy
+        # scalar (not an array) when this is a single disk
+        return np.where(self.center_inside(), res, np.pi - res)
 
     def fs_center(self):
         center, radius = self.circle_parameters()
